@@ -1,0 +1,10 @@
+//go:build !verif
+
+package litefs
+
+// Verification hooks (see verif_on.go). With the "verif" build tag off these
+// are no-ops.
+
+func verifInitDB(db *DB) {}
+
+func verifStep(db *DB, kind string, pgno uint32, internal bool) {}
